@@ -848,9 +848,18 @@ def nud__schema_node_kind_test(self: XPathFunction) -> XPathFunction:
 # symbol has to be registered usually with the same binding power (bp --> lbp, rbp), a
 # multi-value label (using a tuple of values) and a custom pattern. Finally a custom nud
 # or led method is required.
+class _AttributeKindTestOrAxis(XPathToken):
+
+    @property
+    def source(self) -> str:
+        if self.label == 'kind test':
+            return 'attribute(%s)' % ', '.join(tk.source for tk in self)
+        return super().source
+
+
 XPath2Parser.unregister('attribute')
 XPath2Parser.register(
-    'attribute', lbp=90, rbp=90, label=('kind test', 'axis'),
+    'attribute', lbp=90, rbp=90, label=('kind test', 'axis'), bases=(_AttributeKindTestOrAxis,),
     pattern=r'\battribute(?=\s*\:\:|\s*\(\:.*\:\)\s*\:\:|\s*\(|\s*\(\:.*\:\)\()'
 )
 
